@@ -38,6 +38,7 @@ func runC29(c *core.Ctx) {
 	for _, p := range append(append([]string{}, c29Full...), append(c29Reduced, "polygon")...) {
 		checkPosaRepoint(c, "native/service/header_sync/"+p)
 	}
+	checkSpanMembership(c)
 }
 
 func pkgFuncObj(c *core.Ctx, pkg, name string) *types.Func {
